@@ -41,6 +41,9 @@ var binaryEscapes = []byte{'\\', '"', '\b', '\f', '\n', '\r', '\t'}
 // JSON literals
 var literals = []string{"true", "false", "null"}
 
+// maxNestingDepth is the deepest nesting of arrays and objects Transform accepts.
+const maxNestingDepth = 10000
+
 func Transform(jsonData []byte) (result []byte, e error) {
 	// JSON data MUST be UTF-8 encoded
 	var jsonDataLength int = len(jsonData)
@@ -240,14 +243,28 @@ func Transform(jsonData []byte) (result []byte, e error) {
 		return value
 	}
 
+	// Nesting depth of the element being parsed. Every level costs a stack frame and a copy of
+	// everything below it, so the depth is bounded (with the limit encoding/json uses).
+	var depth int = 1 // the top-level array or object is level one
+
+	nested := func(parse func() string) string {
+		depth++
+		defer func() { depth-- }()
+		if depth > maxNestingDepth {
+			setError("exceeded max depth")
+			return ""
+		}
+		return parse()
+	}
+
 	parseElement = func() string {
 		switch scan() {
 		case '{':
-			return parseObject()
+			return nested(parseObject)
 		case '"':
 			return decorateString(parseQuotedString())
 		case '[':
-			return parseArray()
+			return nested(parseArray)
 		default:
 			return parseSimpleType()
 		}
